@@ -15,7 +15,7 @@ UNITS = [None, 'Channel', 'RFI', 'a.u.', 'au', 'MEF', 'mef', ' Mef ', 'rfi', 'A.
 class Prop(common.PropertyCheck):
     pid = 'C10'
     rule = ("generated experiments (1..2 instruments with different channel names, integer and float files, scatter amplifier gain 1 or not, 1..2 bead rows, "
-            "2..3 sample rows) x per-channel units from {empty, Channel, RFI, a.u., au, MEF and case/whitespace variants} x gate fractions x histogram "
+            "2..3 sample rows; float rows with negative / zero-clipped / positive fluorescence and with scatter events outside the declared range) x per-channel units from {empty, Channel, RFI, a.u., au, MEF and case/whitespace variants} x gate fractions x histogram "
             "sheet: every returned sample vs the documented steps composed by hand with the public library (bit for bit: events, ranges, channels), the "
             "statistics columns vs FlowCal.stats of that gated sample, event count, acquisition time, histogram rows vs np.histogram over the library's "
             "bin edges. Non-trivial = distinct (data type, units assignment, instrument, gate fraction) sample rows.")
@@ -31,13 +31,16 @@ class Prop(common.PropertyCheck):
             for j in range(rng.randrange(2, 4)):
                 iid = 'FC001' if (ninst == 1 or rng.random() < 0.6) else 'FC002'
                 rows.append({'iid': iid, 'units': [rng.choice(UNITS) for _ in range(3)], 'gf': rng.choice([0.85, 0.3, 1.0, 0.65]),
-                             'nonneg': rng.random() < 0.5})
+                             'nonneg': rng.choice([True, False, 'zero']), 'scatter_out': rng.random() < 0.5})
             dt = rng.choice(['I', 'I', 'F'])
             if i % 3 == 2:
                 # two float rows reporting the same channel in the same units, one with and one without negative events
                 dt = 'F'
                 rows[0].update({'iid': 'FC001', 'nonneg': True}); rows[1].update({'iid': 'FC001', 'nonneg': False})
                 rows[0]['units'][0] = rows[1]['units'][0] = rng.choice(['a.u.', 'RFI'])
+                # and a float row gated at fraction 1 with scatter events outside the declared range, fluorescence clipped at zero
+                rows[-1].update({'gf': rng.choice([1.0, 1]), 'scatter_out': True, 'nonneg': 'zero'})
+                rows[-1]['units'][1] = rng.choice(['a.u.', 'RFI', 'Channel'])
             yield {'seed': rng.randrange(1 << 30), 'datatype': dt, 'ninst': ninst,
                    'scatter_gain': rng.choice([None, None, 2, 0.5]), 'rows': rows}
 
@@ -64,7 +67,7 @@ class Prop(common.PropertyCheck):
             iid = r['iid']
             fl = ex.inst[iid]['fl']
             fn = 's%d.fcs' % j
-            ex.write_fcs(fn, iid, n=700, voltage=450, seed=case['seed'] % 1000 + 10 + j, nonneg=r['nonneg'])
+            ex.write_fcs(fn, iid, n=700, voltage=450, seed=case['seed'] % 1000 + 10 + j, nonneg=r['nonneg'], scatter_out=r.get('scatter_out', False))
             units = {}
             for c, u in zip(fl, r['units']):
                 cal = ('FL1', 'FL3') if iid == 'FC001' else ('GFP-A',)
@@ -207,4 +210,4 @@ class Prop(common.PropertyCheck):
         return None
 
     def nontrivial_key(self, case, impl):
-        return (case['datatype'], case['ninst'], str(case['scatter_gain']), tuple((r['iid'], tuple(map(str, r['units'])), r['gf']) for r in case['rows']))
+        return (case['datatype'], case['ninst'], str(case['scatter_gain']), tuple((r['iid'], tuple(map(str, r['units'])), r['gf'], str(r['nonneg']), r.get('scatter_out')) for r in case['rows']))
